@@ -409,7 +409,7 @@ func c02Corpus(c *runner.Ctx, idx uint64) {
 // a result; it can only move the failure of that call to compile time.
 func c02ConstExpr(c *runner.Ctx, idx uint64) {
 	r := c.R
-	fns := []string{"FnI", "FnII", "FnS", "FnF", "FnB", "Div", "FnAny", "FnVar", "Inc", "Cat", "FnU8", "FnInts", "MkItem", "Fast", "EqAny", "MkBox", "MkBox", "FnCel", "FnLvl"}
+	fns := []string{"FnI", "FnII", "FnS", "FnF", "FnB", "Div", "FnAny", "FnVar", "Inc", "Cat", "FnU8", "FnInts", "MkItem", "Fast", "EqAny", "MkBox", "MkBox", "FnCel", "FnLvl", "SumF"}
 	fn := r.Pick(fns)
 	arg := func(kind string) string {
 		switch kind {
@@ -458,6 +458,8 @@ func c02ConstExpr(c *runner.Ctx, idx uint64) {
 			call = fmt.Sprintf("Fast(%s, %s)", arg("any"), arg("int"))
 		case "EqAny":
 			call = fmt.Sprintf("EqAny(%s, %s)", arg("any"), arg("any"))
+		case "SumF":
+			call = fmt.Sprintf("SumF(%s)", r.Pick([]string{"1, 2", "1", "", "1.5, 2", "1, 2, 3 + 4", "-1"}))
 		case "FnCel":
 			call = fmt.Sprintf("FnCel(%s)", r.Pick([]string{"1", "2 + 1", "-3", "7 / 2", "1.5"}))
 		case "FnLvl":
